@@ -135,7 +135,130 @@ Proof.
   - destruct W as (Hd & _). congruence.
 Qed.
 
-(* the full statement (also for push_back and copy, whose element assignments go to a block that only the
-   target handle refers to): NOT proved here, correspondence-tested against the value-semantics oracle *)
-Definition Frame_full_stmt := forall s o j, Inv s -> (forall h k v, o <> OWrite h k v) -> j <> op_target o ->
+(* ------------------------------------------------------------------ push_back and copy: the block they write is owned by the target alone *)
+Lemma len_destroy s i : length (s_hs (r_s (destroy s i))) = length (s_hs s).
+Proof.
+  unfold destroy. destruct (Nat.eqb (h_psz (geth s i)) 0); cbn [ret r_s]; [rewrite hs_seth, upd_length; auto|].
+  destruct (h_cnt (geth s i)); cbn [r_s]; [|rewrite hs_seth, upd_length; auto].
+  destruct (b_cnt (getb s n) - 1 =? 0)%Z; cbn [r_s]; rewrite hs_seth, upd_length; auto.
+Qed.
+
+(* the block handle i refers to after reallocate: brand new, or the old one whose counter is 1 *)
+Lemma reallocate_owner s i n : i < length (s_hs s) ->
+  forall c, h_cnt (geth (r_s (reallocate all_fixed s i n)) i) = Some c ->
+  s_next s <= c \/ (b_cnt (getb s c) = 1%Z /\ h_cnt (geth s i) = Some c).
+Proof.
+  intros Hi c. unfold reallocate. cbn [fx_realloc all_fixed]. cbv zeta.
+  set (cells := match h_d (geth s i) with Some d => b_cells (getb s d) | None => [] end).
+  assert (T : h_cnt (geth (r_s (if Nat.ltb 0 n then
+      let '(s1, c) := new_block s (firstn (Nat.min (h_size (geth s i)) n) cells ++ repeat 0%Z (n - Nat.min (h_size (geth s i)) n)) in
+      emit [EAlloc c KData n]
+           (bind (match h_cnt (geth s i) with Some _ => destroy s1 i | None => ret s1 end)
+                 (fun s2 => mkR (seth s2 i (mkH (Some c) (Some c) n n)) [EAlloc c KCnt 1] None))
+    else bind (destroy s i) (fun s2 => ret (seth s2 i (mkH None None n n))))) i) = Some c -> s_next s <= c).
+  { destruct (Nat.ltb 0 n); cbn [emit bind ret r_s new_block].
+    - destruct (h_cnt (geth s i)); cbn [ret r_s]; rewrite geth_seth_eq; cbn [h_cnt];
+        try (intros H; injection H as <-; lia); try (rewrite len_destroy); cbn; auto.
+    - rewrite geth_seth_eq by (rewrite len_destroy; auto). cbn. discriminate. }
+  destruct (h_cnt (geth s i)) as [c0|] eqn:E; [|intros H; left; apply T; exact H].
+  destruct (Z.eqb_spec (b_cnt (getb s c0)) 1) as [E1|NE1]; [|intros H; left; apply T; exact H].
+  destruct (Nat.leb n (h_psz (geth s i))); [|intros H; left; apply T; exact H].
+  cbn [ret r_s]. rewrite geth_seth_eq by auto. cbn [h_cnt]. intros H; injection H as <-. right; auto.
+Qed.
+
+Lemma nrefs_two hs i j c : i <> j -> i < length hs -> j < length hs ->
+  h_cnt (nth i hs hempty) = Some c -> h_cnt (nth j hs hempty) = Some c -> 2 <= nrefs hs c.
+Proof.
+  intros N Hi Hj Ei Ej. pose proof (nrefs_upd hs i hempty c Hi) as U.
+  rewrite (refs_some c c _ Ei), Nat.eqb_refl in U. cbn [b2n hempty refs_to h_cnt] in U.
+  assert (0 < nrefs (upd i hempty hs) c).
+  { apply (nrefs_in _ _ (nth j (upd i hempty hs) hempty)).
+    - apply nth_In. rewrite upd_length; auto.
+    - rewrite nth_upd_neq by auto. exact Ej. }
+  lia.
+Qed.
+
+(* after reallocate no other handle refers to the target's block *)
+Lemma reallocate_unique s i n j : Inv s -> i < length (s_hs s) -> j <> i ->
+  forall c, h_cnt (geth (r_s (reallocate all_fixed s i n)) i) = Some c -> h_cnt (geth s j) <> Some c.
+Proof.
+  intros I Hi Nj c Hc Ej. destruct (reallocate_owner s i n Hi c Hc) as [Fresh|[C1 Ei]].
+  - pose proof (geth_wf s None j I) as W. unfold hwf in W. rewrite Ej in W. destruct W as (_ & L & _).
+    destruct (inv_b _ _ I c L). lia.
+  - pose proof (geth_wf s None i I) as W. unfold hwf in W. rewrite Ei in W. destruct W as (_ & L & _).
+    destruct (inv_b _ _ I c L) as (_ & B & _). cbn [pendc] in B.
+    assert (Hj : j < length (s_hs s)).
+    { destruct (Nat.lt_ge_cases j (length (s_hs s))); auto. unfold geth in Ej. rewrite nth_overflow in Ej by auto. discriminate. }
+    pose proof (nrefs_two (s_hs s) i j c ltac:(auto) Hi Hj Ei Ej). lia.
+Qed.
+
+Lemma abs_other s s' j :
+  Inv s -> geth s' j = geth s j ->
+  (forall c, h_cnt (geth s j) = Some c -> b_cells (getb s' c) = b_cells (getb s c)) ->
+  abs s' j = abs s j.
+Proof.
+  intros I G C. unfold abs. rewrite G. pose proof (geth_wf s None j I) as W. unfold hwf in W.
+  destruct (h_d (geth s j)) as [d|] eqn:Ed; auto.
+  destruct (h_cnt (geth s j)) as [c|] eqn:Ec.
+  - destruct W as (Hd & _). injection Hd as ->. rewrite (C c eq_refl). reflexivity.
+  - destruct W as (Hd & _). congruence.
+Qed.
+
+Lemma live_lt s c j : Inv s -> h_cnt (geth s j) = Some c -> c < s_next s.
+Proof.
+  intros I E. pose proof (geth_wf s None j I) as W. unfold hwf in W. rewrite E in W. destruct W as (_ & L & _).
+  destruct (inv_b _ _ I c L). auto.
+Qed.
+
+Lemma frame_push_back s i a j : Inv s -> i < length (s_hs s) -> j <> i ->
+  abs (r_s (push_back all_fixed s i a)) j = abs s j.
+Proof.
+  intros I Hi Nj. unfold push_back. cbn [bind ret r_s].
+  set (n := h_size (geth s i) + 1). set (s1 := r_s (reallocate all_fixed s i n)).
+  destruct (reallocate_spec s i n I Hi) as ((I1 & _ & _) & _ & Cl & Fr). fold s1 in I1, Cl, Fr.
+  apply abs_other; auto.
+  - unfold write_cell. destruct (h_d (geth s1 i)); [rewrite geth_setb|]; apply Fr; auto.
+  - intros c Ec. unfold write_cell. destruct (h_d (geth s1 i)) as [d|] eqn:Ed; [|apply Cl; eapply live_lt; eauto].
+    rewrite getb_setb. destruct (Nat.eqb_spec d c) as [->|N]; [|apply Cl; eapply live_lt; eauto].
+    exfalso. pose proof (geth_wf s1 None i I1) as W. unfold hwf in W.
+    destruct (h_cnt (geth s1 i)) as [ci|] eqn:Eci.
+    + destruct W as (Hd & _). rewrite Ed in Hd. injection Hd as <-.
+      apply (reallocate_unique s i n j I Hi Nj c Eci Ec).
+    + destruct W as (Hd & _). congruence.
+Qed.
+
+Lemma frame_copy s i p j : Inv s -> i < length (s_hs s) -> j <> i ->
+  abs (r_s (copy all_fixed s i p)) j = abs s j.
+Proof.
+  intros I Hi Nj. unfold copy. destruct (option_nat_eqb (h_d (geth s p)) (h_d (geth s i))); [reflexivity|].
+  cbn [bind r_s]. cbv zeta.
+  set (n := h_size (geth s p)). set (s1 := r_s (reallocate all_fixed s i n)).
+  destruct (reallocate_spec s i n I Hi) as ((I1 & _ & _) & _ & Cl & Fr). fold s1 in I1, Cl, Fr.
+  destruct (h_d (geth s1 i)) as [d|] eqn:Ed; cbn [ret r_s].
+  2:{ apply abs_other; auto. intros c Ec. apply Cl. eapply live_lt; eauto. }
+  destruct (Nat.eqb (h_size (geth s1 i)) 0); cbn [ret r_s].
+  { apply abs_other; auto. intros c Ec. apply Cl. eapply live_lt; eauto. }
+  apply abs_other; auto.
+  - rewrite geth_setb. apply Fr; auto.
+  - intros c Ec. rewrite getb_setb. destruct (Nat.eqb_spec d c) as [->|N]; [|apply Cl; eapply live_lt; eauto].
+    exfalso. pose proof (geth_wf s1 None i I1) as W. unfold hwf in W.
+    destruct (h_cnt (geth s1 i)) as [ci|] eqn:Eci.
+    + destruct W as (Hd & _). rewrite Ed in Hd. injection Hd as <-.
+      apply (reallocate_unique s i n j I Hi Nj c Eci Ec).
+    + destruct W as (Hd & _). congruence.
+Qed.
+
+(* every operation except write(k, v) (whose effect IS visible through the handles sharing the block) leaves the
+   contents seen through every other handle unchanged *)
+Definition Frame_full_stmt := forall s o j, Inv s -> op_target o < length (s_hs s) ->
+  (forall h k v, o <> OWrite h k v) -> j <> op_target o ->
   abs (r_s (step all_fixed s o)) j = abs s j.
+
+Lemma Frame_full_proof : Frame_full_stmt.
+Proof.
+  intros s o j I Ht NW Nj. destruct (structural o) eqn:S; [apply Frame_proof; auto|].
+  destruct o; cbn [structural] in S; try discriminate; cbn [op_target step] in *.
+  - apply frame_copy; auto.
+  - apply frame_push_back; auto.
+  - exfalso. eapply NW; eauto.
+Qed.
